@@ -38,6 +38,8 @@ TIERS = {
 def generate(seed, tier="quick"):
     r = sub_rng(seed, "c07.scenario")
     n = r.choice([1, 2, 3, 4, 5, 7, 8, 13, 16, 17, 31, 64, 100, 257, 1000])
+    if r.random() < 0.002:
+        n = 131073  # beyond 2^17 samples (a block-wise reduction or a narrow index type shows only there)
     x0 = r.choice([100.0, 50.0, 1.0])
     scale = x0 * r.choice([0.05, 0.2, 0.5])
     vals = []
@@ -87,6 +89,8 @@ def generate(seed, tier="quick"):
         "env": {"cpu_count": r.choice([1, 2, 4, 16]), "path_cost": r.choice([1e-6, 1e-3]),
                 "spawn_cost": 1e-4},
     }
+    if n > 100000:
+        sc["nproc"], sc["warm_n"], sc["warm_values"] = 1, None, []  # one long single-process run
     if sc["nproc"] != 1 and r.random() < 0.2:
         # fault: one task of the pool's map call dies in its worker (before or after doing its work)
         sc["env"]["task_fail_one_in"] = r.choice([1, 2])
